@@ -38,6 +38,44 @@ const rules = `/^inc$/ {
 }
 `
 
+// histRules feed a histogram from the same lines (inc -> 0; set x n -> n - 6).
+const histRules = `/^inc$/ {
+  h = 0
+}
+/^set (\w+) (\d+)$/ {
+  h = $2 - 6
+}
+`
+
+// histogramsConsistent: whatever a reload does to a histogram (keep it, reset
+// it, give it new boundaries), every observation it reports is in exactly one
+// of its buckets.
+func histogramsConsistent(st *metrics.Store, prog string) string {
+	what := ""
+	_ = st.Range(func(m *metrics.Metric) error {
+		if m.Program != prog || m.Type != metrics.Buckets {
+			return nil
+		}
+		m.RLock()
+		defer m.RUnlock()
+		for _, lv := range m.LabelValues {
+			b, ok := lv.Value.(*datum.Buckets)
+			if !ok {
+				continue
+			}
+			var sum uint64
+			for _, n := range b.GetBuckets() {
+				sum += n
+			}
+			if sum != b.GetCount() {
+				what = fmt.Sprintf("histogram %s: its buckets hold %d observations, its count says %d", m.Name, sum, b.GetCount())
+			}
+		}
+		return nil
+	})
+	return what
+}
+
 type decl struct {
 	Kind, Name, Type string
 	Keys             string
@@ -77,6 +115,12 @@ var versions = []version{
 		return "counter c\ngauge d by k\ncounter e\n" + rules + "/^inc$/ {\n  e++\n}\n" + fmt.Sprintf("# nonce %d\n", n)
 	}, base, false},
 	{"syntax-error", func(n int) string { return "counter c\ngauge d by k\n" + rules + fmt.Sprintf("this is { not valid %d\n", n) }, nil, true},
+	{"histogram-added", func(n int) string {
+		return "counter c\ngauge d by k\nhistogram h buckets -1, 0, 2\n" + rules + histRules + fmt.Sprintf("# nonce %d\n", n)
+	}, base, false},
+	{"histogram-buckets-edited", func(n int) string {
+		return "counter c\ngauge d by k\nhistogram h buckets 1, 2, 4\n" + rules + histRules + fmt.Sprintf("# nonce %d\n", n)
+	}, base, false},
 	{"kind-clash-within-the-program", func(n int) string {
 		// compiles (the two y are in different scopes) but cannot be registered
 		return "counter c\ngauge d by k\n" + rules + "/^zz1$/ {\n  counter y\n  y++\n}\n/^zz2$/ {\n  gauge y\n  y = 1\n}\n" + fmt.Sprintf("# nonce %d\n", n)
@@ -235,7 +279,7 @@ func kept(old, new []decl) map[string]bool {
 func TestC14(t *testing.T) {
 	r := ev.Start(t, "C14", "exploration")
 	defer r.Finish()
-	r.Rule("histories over {load version v for v in (base, identical, comment appended, declaration moved, kind changed (first / a later declaration), type changed, keys changed, declaration removed, declaration added, syntax error, kind clash with a second program, kind clash between two declarations of the program itself), feed lines, GC, unload} on a real runtime.Runtime + Store + Prometheus registry; all histories of length <=2 (quick) / <=3 (thorough) exhaustively plus random length-8 histories; after every step: identical reload changes nothing (snapshot, metric identity, VM id, load counter); kept declarations keep values and expiry; a failed load leaves the export unchanged and the old version still updates the export; the scrape never fails nor lists a series twice; values follow the model of the lines fed. Non-trivial: history with >=1 successful reload after data exists; distinct by history.")
+	r.Rule("histories over {load version v for v in (base, identical, comment appended, declaration moved, kind changed (first / a later declaration), type changed, keys changed, declaration removed, declaration added, syntax error, kind clash with a second program, kind clash between two declarations of the program itself, a histogram added / its boundaries edited), feed lines, GC, unload} on a real runtime.Runtime + Store + Prometheus registry; all histories of length <=2 (quick) / <=3 (thorough) exhaustively plus random length-8 histories; after every step: identical reload changes nothing (snapshot, metric identity, VM id, load counter); kept declarations keep values and expiry; a failed load leaves the export unchanged and the old version still updates the export; the scrape never fails nor lists a series twice; values follow the model of the lines fed. Non-trivial: history with >=1 successful reload after data exists; distinct by history.")
 	r.Assume("for a declaration that was not kept (moved / retyped / re-keyed / kind changed) the statement fixes no value: the model adopts what is observed", "expvar load counters are read per unique program name")
 	lh := func(id uint64, name string, l *logline.LogLine, phase int) {
 		if phase == 0 && strings.HasPrefix(name, "c14_") {
@@ -270,6 +314,15 @@ func TestC14(t *testing.T) {
 	}
 	rec(nil)
 	r.Set("exhaustive_histories", len(histories))
+	// directed histories for features that need three or more particular steps
+	L1, L2 := op{Kind: "lines", Lines: "inc;set a 5;inc"}, op{Kind: "lines", Lines: "set b 7;set a 9"}
+	ld := func(v string) op { return op{Kind: "load", Version: v} }
+	histories = append(histories,
+		[]op{ld("histogram-added"), L1, L2, ld("histogram-buckets-edited"), L1, ld("histogram-added"), L2},
+		[]op{ld("histogram-added"), L1, ld("identical"), ld("comment-appended"), L2, ld("histogram-buckets-edited"), {Kind: "gc"}, L1},
+		[]op{ld("histogram-added"), L2, {Kind: "unload"}, ld("histogram-buckets-edited"), L1},
+		[]op{ld("histogram-buckets-edited"), L1, ld("syntax-error"), ld("histogram-added"), L2, ld("base"), L1},
+	)
 	rng := ev.NewRNG(ev.Seed(), "c14")
 	for i := 0; i < ev.Pick(150, 5000); i++ {
 		g := rng.Sub(i)
@@ -382,6 +435,9 @@ func runHistory(t *testing.T, r *ev.Run, hi int, hist []op) (string, int) {
 	full := append([]op{{Kind: "load", Version: "base"}, {Kind: "lines", Lines: "inc;set a 5;inc"}}, hist...)
 	for si, o := range full {
 		step := si - 2
+		if w := histogramsConsistent(h.store, h.prog); w != "" {
+			return "after the previous step: " + w, step - 1
+		}
 		before := snapshot(h.store, h.prog)
 		switch o.Kind {
 		case "load":
@@ -552,6 +608,9 @@ func runHistory(t *testing.T, r *ev.Run, hi int, hist []op) (string, int) {
 		}
 		_ = time.Now
 		_ = datum.GetInt
+	}
+	if w := histogramsConsistent(h.store, h.prog); w != "" {
+		return "after the last step: " + w, len(full) - 3
 	}
 	return "", -1
 }
